@@ -23,6 +23,7 @@ pub struct SessionHandle {
     pub session_id: String,
     sender: broadcast::Sender<Event>,
     events: Arc<Mutex<Vec<Event>>>,
+    input_taken: Arc<std::sync::atomic::AtomicBool>,
 }
 
 impl SessionHandle {
@@ -34,6 +35,15 @@ impl SessionHandle {
 
     pub(crate) async fn events_snapshot(&self) -> Vec<Event> {
         self.events.lock().await.clone()
+    }
+
+    /// A session is one run: its stream starts at seq 0 with the frame for its input. Returns
+    /// `true` for the first caller only, so that a second input (a retried or repeated request)
+    /// cannot start a second run on the same stream.
+    pub(crate) fn take_input_slot(&self) -> bool {
+        !self
+            .input_taken
+            .swap(true, std::sync::atomic::Ordering::SeqCst)
     }
 }
 
@@ -120,6 +130,7 @@ impl SessionEngine {
             session_id,
             sender,
             events: Arc::new(Mutex::new(Vec::new())),
+            input_taken: Arc::new(std::sync::atomic::AtomicBool::new(false)),
         }
     }
 
